@@ -773,7 +773,7 @@ def run(tier: str) -> int:
             ck.count("corpus")
             if found:
                 ck.violate({"case": c01.compact(case), "faults": found[0][0], "corpus": f.name}, found[0][1])
-        for kind, what in lookup_scenarios(ck):
+        for kind, what in lookup_scenarios(ck)[:4]:
             ck.violate({"scenario": "kind-lookup", "fault": kind}, what)
         n = 40 if tier == "quick" else 500
         for _ in range(n):
